@@ -47,7 +47,7 @@ var countries = []string{"US", "DE", "BR", "IN", "JP", "ZA", "XK"} // XK: a user
 func dbAnswer(ip net.IP) ipinfo.IPInfo {
 	ip16 := ip.To16()
 	c := countries[int(ip16[15]>>3)%len(countries)]
-	return ipinfo.IPInfo{CountryCode: ipinfo.CountryCode(c), ASN: ipinfo.ASN{Number: 4231827360 + int(ip16[14]%8), Organization: fmt.Sprintf("Org%d", ip16[14]%8)}}
+	return ipinfo.IPInfo{CountryCode: ipinfo.CountryCode(c), ASN: ipinfo.ASN{Number: 99000 + int(ip16[14]%8), Organization: fmt.Sprintf("Org%d", ip16[14]%8)}}
 }
 
 func (d *fakeDB) GetIPInfo(ip net.IP) (ipinfo.IPInfo, error) {
